@@ -79,7 +79,11 @@ _l.ensures += [cl("recorded", "lsc_last(deme) == result")]
 
 # ---- one deme, one metaepoch (abstract: every engine refines it) ----------------------------------------------------
 D = "pyhms.demes.abstract_deme.AbstractDeme."
-OWN_FRAME = [("_active", "o == self"), ("_centroid", "o == self"),
+ghost_fields(**{"$qmc_draws": "int", "$cma_told": "int", "$cma_asked": "int"})
+# engine-private state (operator/optimiser internals, generator draw counters): no specification reads it, every deme may write it
+ENGINE_PRIVATE = [("stds", "True"), ("_archive", "True"), ("_k", "True"), ("$arr", "True"), ("$np_draws", "o == None"),
+                  ("$py_draws", "o == None"), ("$qmc_draws", "True"), ("$cma_told", "True"), ("$cma_asked", "True")]
+OWN_FRAME = ENGINE_PRIVATE + [("_active", "o == self"), ("_centroid", "o == self"),
              ("$list<list[list[ref:Individual]]>", "o == self._history"),
              ("_n_evals", "o == self or o == self._problem"), ("$engine_stop", "o == self"),
              ("$gsc_last", "o == tree"), ("$gsc_clock", "o == tree"), ("$lsc_last", "o == self"), ("weights", "o == tree._gsc")]
@@ -99,7 +103,7 @@ fn(D + "run_metaepoch", abstract=True, params={"tree": "ref:DemeTree"},
 
 # ---- the tree: one metaepoch -----------------------------------------------------------------------------------------
 macro("Stepped", ["t", "d"], "d._active and not (hibernation_on(t) and d._hibernating)")
-RUNME_FRAME = [("_active", "InTree(self, cast(o, 'ref:AbstractDeme'))"), ("_centroid", "True"),
+RUNME_FRAME = ENGINE_PRIVATE + [("_active", "InTree(self, cast(o, 'ref:AbstractDeme'))"), ("_centroid", "True"),
                ("$list<list[list[ref:Individual]]>", "kind(o) == 3"), ("_n_evals", "True"), ("$engine_stop", "True"),
                ("$gsc_last", "o == self"), ("$gsc_clock", "o == self"), ("$lsc_last", "True"), ("weights", "o == self._gsc")] + \
               [x for x in USER_PROBLEM_FRAME if x[0] != "_n_evals"]
